@@ -10,7 +10,7 @@ OPERANDS = ["a", "'lit'", "42", "f()", "o.p", "o[k]", "(a)", "('x' + 'y')", "'x'
             "`plain`", "/re/", "x = y", "(() => a)", "!a", "a ? b : 'c'", "new F(a)", "o?.[k]", "f?.()",
             # one of every remaining expression kind
             "++x", "x--", "a && b", "a || b", "a ?? b", "x &&= y", "x ??= y", "x -= 1", "a * b", "a ** b", "k in o", "a instanceof F", "-a", "~a", "void 0",
-            "delete o.p", "typeof a", "function () { return a; }", "class {}", "({ ...o })", "({ k: a })", "({ [k]: a, m() { return b; } })", "[...r]", "[, a]",
+            "delete o.p", "delete o?.concat(a).p", "delete o?.p.trim().q", "delete o?.[k.trim()]", "typeof a", "function () { return a; }", "class {}", "({ ...o })", "({ k: a })", "({ [k]: a, m() { return b; } })", "[...r]", "[, a]",
             "new F", "o.p.q", "o?.p.q", "o?.[k]?.(a)", "tag`t${a}`", "import('m')", "new.target", "0x10", ".5", "true", "`a${b}c`", "/re/g", "a, b".replace(", ", " , ") and "(a , b)",
             "a < b", "a == b", "a === 'x'", "a - b", "a % b", "a | b", "a >>> 1", "!(a + b)", "(a + b) * 2", "a + b - c", "x = a + b", "[a + b]", "({ k: a + b }).k",
             # identifiers and literals that end in a multi-byte character (the last byte of the operation is not a character boundary)
@@ -125,7 +125,9 @@ def operations(rng, reserved=None):
         lambda: "%s += %s" % (rng.choice(["x", "o.p", "o[k]", "o[i++]", "f().p", "o.p.q", "this.v", "o[a + b]", "o[-k]", "o[+k]", "(o[-k])", "o[`${k}`]", "o[k ? 'a' : 'b']",
                                            "o[k.p]", "o[typeof k]", "o[!k]", "o[~k]", "o[k - 1]", "o[(k, 1)]", "o[k?.p]", "o.p[-k].q", "o[k][-i]", "o[-1]", "o['lit']", "o[f()].p[g()]",
                                            "f()[g(a)]", "o.p[f()]", "g(a)[k + 1]", "f()[o.p]", "o.q.r[g(b)]", "f().p[g(a)]", "(a, o)[f()]", "o[f()][g(a)]",
-                                           "((o.p))", "(((x)))", "((o[k]))", "((o).p)", "((f().p))"]), o()),
+                                           "((o.p))", "(((x)))", "((o[k]))", "((o).p)", "((f().p))",
+                                           # an instrumented operation in the key of a link that is not the last one
+                                           "o[a + b].p", "this.cache[k.trim()].buf", "o[`${k}`].p.q", "o[a + b][k + 1]", "o.p[x.concat(y)].q", "this[a + b].v", "o[k.trim()][i]"]), o()),
         lambda: "`%s${%s}%s`" % (rng.choice(["", "p"]), o(), rng.choice(["", "q"])),
         lambda: "`${%s}-${%s}`" % (o(), o()),
         lambda: "%s.%s(%s)" % (rpar(rng.choice(RECEIVERS)), rng.choice(METHODS), rng.choice(ARG_LISTS)),
